@@ -16,20 +16,21 @@ Import ListNotations.
 Local Open Scope string_scope.
 Local Open Scope list_scope.
 
-(* ---- the behaviours that `fix:` commits changed; the original code was lead = true, cat_fix = false, base = Some "None", rescan = true, va_fix = false, str_white = false, va_whole = false ---- *)
+(* ---- the behaviours that `fix:` commits changed; the original code was lead = true, cat_fix = false, base = Some "None", rescan = true, va_fix = false, str_white = false, va_whole = false, resub_fix = false ---- *)
 Definition cur_lead : bool := false.                    (* stringify keeps a leading blank *)
 Definition cur_cat_fix : bool := true.                (* ## beside an empty argument *)
 Definition cur_base : option string := None.
 Definition cur_va_fix : bool := true.                   (* variable arguments always pre-expanded *)
 Definition cur_str_white : bool := true.                (* # result carries the white space of the # token *)
 Definition cur_va_whole : bool := true.                 (* variable argument collected whole *)
+Definition cur_resub_fix : bool := true.                (* # / ## results are final *)
 Definition cur_rescan : bool := false.                  (* splice leaves pos at the start of the insertion *)    (* str(ident) of the base stream in no_expand *)
 
 Definition fuel_M : nat := 200 * 100.
 Definition fuel_S : nat := 40 * 100.
 
 Definition expand_cur (tb : table) (l : list tok) : res (list tok) :=
-  expand cur_lead cur_cat_fix cur_str_white cur_base cur_rescan cur_va_fix cur_va_whole Gen.C03_tables.max_level tb fuel_M l.
+  expand cur_lead cur_cat_fix cur_str_white cur_resub_fix cur_base cur_rescan cur_va_fix cur_va_whole Gen.C03_tables.max_level tb fuel_M l.
 
 (* Platform.define: only if absent *)
 Definition define (tb : table) (m : macro) : table :=
